@@ -519,9 +519,30 @@ class SDK:
         return getattr(self.types, python_naming.class_name(meta_name))  # type: ignore[attr-defined]
 
     def enum_of(self, meta_name: str) -> Any:
+        """The generated Python ``enum.Enum`` for the meta-model enumeration ``meta_name``."""
         from aas_core_codegen.python import naming as python_naming
 
         return getattr(self.types, python_naming.enum_name(meta_name))  # type: ignore[attr-defined]
+
+    def from_jsonable(self, meta_name: str) -> Any:
+        """``jsonization.<class>_from_jsonable`` for the meta-model class ``meta_name``."""
+        from aas_core_codegen.common import Identifier
+        from aas_core_codegen.python import naming as python_naming
+
+        return getattr(self.jsonization, python_naming.function_name(Identifier(f"{meta_name}_from_jsonable")))  # type: ignore[attr-defined]
+
+    def from_xml_str(self, meta_name: str) -> Any:
+        """``xmlization.<class>_from_str`` for the meta-model class ``meta_name``."""
+        from aas_core_codegen.common import Identifier
+        from aas_core_codegen.python import naming as python_naming
+
+        return getattr(self.xmlization, python_naming.function_name(Identifier(f"{meta_name}_from_str")))  # type: ignore[attr-defined]
+
+    def to_jsonable(self, instance: Any) -> Any:
+        return self.jsonization.to_jsonable(instance)  # type: ignore[attr-defined]
+
+    def to_xml_str(self, instance: Any) -> str:
+        return self.xmlization.to_str(instance)  # type: ignore[attr-defined]
 
 
 def load_python_sdk(source_text: str, scratch_dir: Optional[pathlib.Path] = None) -> SDK:
